@@ -43,11 +43,13 @@ def jsonStep (t : Tokens) (impl : Option String) : StepOut :=
   | "events" =>
     { model := toHex (eventsPayload (hexOr (tokStr t 2)) (tokNat t 3) (tokNat t 4) (hexList (tokStr t 5))) ++ " valid=1", specFails := validFail }
   | "log" =>
-    let labels : JBytes := match tokStr t 2 with
-      | "-" => bs "{}"
-      | s => match s.splitOn ":" with
-        | [ty, v] => bs ("{\"tags." ++ ty ++ "\":\"" ++ v ++ "\"}")
-        | _ => bs "{}"
+    -- labels: `-` or `type:value;type:value;…` (plain identifiers; a type or a value may be empty = an invalid label)
+    let ls : List (JBytes × JBytes) := match tokStr t 2 with
+      | "-" => []
+      | s => (s.splitOn ";").filterMap (fun e => match e.splitOn ":" with
+        | [ty, v] => some (bs ty, bs v)
+        | _ => none)
+    let labels : JBytes := logLabelsObject (fun x => bs "\"" ++ x ++ bs "\"") ls
     { model := toHex (logPayload labels (hexList (tokStr t 3))) ++ " valid=1", specFails := validFail }
   | "pkgs" => { model := toHex (packagesPayload (hexOr (tokStr t 2))) ++ " valid=1", specFails := validFail }
   -- payloads the code builds with encoding/json: the container decides how many entries there are (capacities 1/10/20
